@@ -1108,7 +1108,62 @@ func (env *Env) callExpr(x *ast.CallExpr) EVal {
 		// written(w): total number of bytes passed to w.Write so far (ghost counter of an io.Writer)
 		argN(1)
 		v := env.eval(x.Args[0])
-		return EVal{V: Val{f.Select(env.tr.get(env.curState(), "wcount"), env.identity(v))}, T: types.Typ[types.Int64]}
+		cnt := f.Select(env.tr.get(env.curState(), "wcount"), env.identity(v))
+		if !containsBound(cnt, map[*Term]bool{}) {
+			env.tr.assume(f.And(f.SLe(f.BVi(64, 0), cnt), f.SLe(cnt, f.BVu(64, 1<<60))), "byte counters of writers are non-negative (and below 2^60)")
+		}
+		return EVal{V: Val{cnt}, T: types.Typ[types.Int64]}
+	case "stream":
+		// stream(r, pos): byte number pos of the fixed sequence reader r delivers
+		argN(2)
+		v := env.eval(x.Args[0])
+		pos := env.defaultType(env.eval(x.Args[1]))
+		return EVal{V: Val{f.App("stream", S8, env.identity(v), f.Ext(pos.V[0], 64, true))}, T: types.Typ[types.Uint8]}
+	case "streamlen":
+		argN(1)
+		v := env.eval(x.Args[0])
+		return EVal{V: Val{f.App("streamlen", S64, env.identity(v))}, T: types.Typ[types.Int64]}
+	case "m":
+		// m(x, "Name"): result of the side-effect-free accessor x.Name() of a foreign interface value (fs.FileInfo, fs.DirEntry ...),
+		// the same uninterpreted function the verifier uses when the code calls it
+		argN(2)
+		v := env.eval(x.Args[0])
+		lit, ok := x.Args[1].(*ast.BasicLit)
+		if !ok || !isIface(v.T) {
+			env.fail("m(x, \"Method\") needs an interface value and a method name")
+		}
+		name := strings.Trim(lit.Value, "\"")
+		if !pureAccessor(name) {
+			env.fail("m(): %s is not a modelled accessor", name)
+		}
+		ms := types.NewMethodSet(v.T)
+		var rt types.Type
+		for i := 0; i < ms.Len(); i++ {
+			if ms.At(i).Obj().Name() == name {
+				sg := ms.At(i).Type().(*types.Signature)
+				if sg.Params().Len() == 0 && sg.Results().Len() == 1 {
+					rt = sg.Results().At(0).Type()
+				}
+			}
+		}
+		if rt == nil {
+			env.fail("m(): no accessor %s on %s", name, v.T)
+		}
+		ls := shape(rt)
+		out := make(Val, len(ls))
+		for i, l := range ls {
+			out[i] = f.App(fmt.Sprintf("m_%s_%d", name, i), l.S, v.V[1], v.V[2])
+		}
+		return EVal{V: out, T: rt}
+	case "consumed":
+		// consumed(r): total number of bytes r.Read has returned so far (ghost counter of an io.Reader)
+		argN(1)
+		v := env.eval(x.Args[0])
+		cnt := f.Select(env.tr.get(env.curState(), "rcount"), env.identity(v))
+		if !containsBound(cnt, map[*Term]bool{}) {
+			env.tr.assume(f.And(f.SLe(f.BVi(64, 0), cnt), f.SLe(cnt, f.BVu(64, 1<<60))), "byte counters of readers are non-negative (and below 2^60)")
+		}
+		return EVal{V: Val{cnt}, T: types.Typ[types.Int64]}
 	case "ro":
 		argN(1)
 		v := env.eval(x.Args[0])
